@@ -169,7 +169,8 @@ def run_history(case):
 
 
 def _run(case):
-    return run_history(case)
+    from vf.runner import retry_env
+    return retry_env(run_history, case)
 
 
 def alphabet(n):
